@@ -13,6 +13,7 @@ import (
 	"math"
 	"net/netip"
 	"os"
+	"sync"
 	"time"
 
 	"github.com/google/gopacket/layers"
@@ -29,6 +30,8 @@ type sackDriver struct {
 	buffer []byte
 	parser *packets.FrameParser
 
+	// mu guards against concurrent access to sendTimes
+	mu        sync.Mutex
 	sendTimes []time.Time
 	localAddr netip.Addr
 	localPort uint16
@@ -68,11 +71,10 @@ func (s *sackDriver) SendProbe(ttl uint8) error {
 	if ttl < s.params.ParallelParams.MinTTL || ttl > s.params.ParallelParams.MaxTTL {
 		return fmt.Errorf("sackDriver asked to send invalid TTL %d", ttl)
 	}
-	// store the send time for the RTT later when we receive the response
-	if !s.sendTimes[ttl].IsZero() {
-		return fmt.Errorf("sackDriver asked to send probe for TTL %d but it was already sent", ttl)
+	err := s.storeSendTime(ttl)
+	if err != nil {
+		return err
 	}
-	s.sendTimes[ttl] = time.Now()
 
 	gen := sackPacketGen{
 		ipPair: s.ExpectedIPPair().Flipped(),
@@ -95,6 +97,25 @@ func (s *sackDriver) SendProbe(ttl uint8) error {
 	}
 	return nil
 }
+
+func (s *sackDriver) storeSendTime(ttl uint8) error {
+	s.mu.Lock()
+	defer s.mu.Unlock()
+	// store the send time for the RTT later when we receive the response
+	if !s.sendTimes[ttl].IsZero() {
+		return fmt.Errorf("sackDriver asked to send probe for TTL %d but it was already sent", ttl)
+	}
+	s.sendTimes[ttl] = time.Now()
+	return nil
+}
+
+func (s *sackDriver) findSendTime(relSeq uint32) time.Time {
+	s.mu.Lock()
+	defer s.mu.Unlock()
+
+	return s.sendTimes[relSeq]
+}
+
 func (s *sackDriver) ReceiveProbe(timeout time.Duration) (*common.ProbeResponse, error) {
 	if !s.IsHandshakeFinished() {
 		return nil, fmt.Errorf("sackDriver hasn't finished ReadHandshake()")
@@ -155,10 +176,11 @@ func (s *sackDriver) getRTTFromRelSeq(relSeq uint32) (time.Duration, error) {
 	if relSeq < uint32(s.params.ParallelParams.MinTTL) || relSeq > uint32(s.params.ParallelParams.MaxTTL) {
 		return 0, fmt.Errorf("getRTTFromRelSeq: invalid relative sequence number %d", relSeq)
 	}
-	if s.sendTimes[relSeq].IsZero() {
+	sendTime := s.findSendTime(relSeq)
+	if sendTime.IsZero() {
 		return 0, fmt.Errorf("getRTTFromRelSeq: no probe sent for relative sequence number %d", relSeq)
 	}
-	return time.Since(s.sendTimes[relSeq]), nil
+	return time.Since(sendTime), nil
 }
 
 var errPacketDidNotMatchTraceroute = &common.ReceiveProbeNoPktError{Err: fmt.Errorf("packet did not match the traceroute")}
